@@ -164,7 +164,7 @@ def run(c):
                         creates += 1
                         if r["lv"] >= 2 and r["shprm"]:
                             c.nontrivial.add(("create", r["f"], r["m"], json.dumps(r["shprm"], sort_keys=True), r["lv"]))
-                    elif r["f"] in ("solver_solve_mtx", "solver_solve_mtx_f") or r["c"][2] > 1 or r["f"] == "precond_apply":
+                    elif r["f"] in ("solver_solve_mtx", "solver_solve_mtx_f", "solver_solve_mtx_upd", "solver_solve_mtx_upd_f") or r["c"][2] > 1 or r["f"] == "precond_apply":
                         c.nontrivial.add((r["f"], r["m2"], tuple(r["c"])))
             for ln in res["lines"][1:200000:20011]:
                 c.sample(ln, limit=8)
